@@ -22,22 +22,42 @@ FS = 'self.info.filters@'
 #       per filter (`Primitive::Null` for a filter without parameters) ... a single dictionary for one filter, else an array
 # The loop invariants name `params` (an Option in one shape, a Vec in the other), so their text is chosen from the tree
 # under verification; labels and postconditions are the same for both.
-def _fixed_shape():
+# The /DecodeParms loop is recognised by SHAPE, not by its statements (hardening round 3):
+#   * `params` starts as `Vec::new()` (fixed) or `None` (pinned)                                       -> which wording of `parms_so_far`
+#   * a flag `let mut has_params` exists                                                                 -> `any_parms_so_far` is stated (else there
+#     is no variable to state it about; the postcondition `decodeparms_paired_by_position` then has to follow from `parms_so_far` alone)
+#   * the loop is a `for <x> in self.info.filters.iter()` / `in &self.info.filters` (any variable name)  -> gets the ghost iterator + invariants
+# ONE invariant template serves every loop that appends one entry per filter, whatever statement does the appending (`push` in
+# both arms, `push(match ..)`, `extend(Some(..)/None)` -> R7 `hoist_vec_extend_opt`). A body without such a loop (iterator
+# map/collect with a closure that captures `update`, ..) gets no loop annotation and is left to the verifier as it is: normally
+# UNDECIDED (Verus does not read capturing FnMut closures), never an alarm; the BOUNDED native stand-in decides those.
+FOR_HEAD = r'for\s+\w+\s+in\s+(?:self\.info\.filters\.iter\(\)|&self\.info\.filters)\s*\{'
+
+
+def _shape():
     from vlib import assemble
     try:
         _raw, _sig, body = assemble.locate({'kind': 'fn', 'file': STM, 'container': WR, 'name': 'to_pdf_stream'})
-        return 'params.push(' in assemble.strip_comments(body)
+        body = re.sub(r'\s+', ' ', assemble.strip_comments(body))
     except Exception:
-        return True        # anchor lost: reported by the framework when it extracts the item itself
+        return {'vec': True, 'flag': True, 'loops': 1}        # anchor lost: reported by the framework when it extracts the item itself
+    return {'vec': not re.search(r'let mut params\b[^=;]*= None\b', body),
+            'flag': bool(re.search(r'let mut has_params\b', body)),
+            'loops': len(re.findall(FOR_HEAD, body))}
 
 
-FIXED = _fixed_shape()
+SHAPE = _shape()
+FIXED = SHAPE['vec']
 if FIXED:
-    PARM_INV = [('parms_so_far', 'params@.len() == it.index@ && forall|k: int| 0 <= k < it.index@ ==> #[trigger] params@[k] == parm_prim(%s[k])' % FS),
-                ('any_parms_so_far', 'has_params == any_parms(%s, it.index@ as int)' % FS)]
+    PARM_INV = [('parms_so_far', 'params@.len() == it.index@ && forall|k: int| 0 <= k < it.index@ ==> #[trigger] params@[k] == parm_prim(%s[k])' % FS)]
+    if SHAPE['flag']:
+        PARM_INV.append(('any_parms_so_far', 'has_params == any_parms(%s, it.index@ as int)' % FS))
 else:
     PARM_INV = [('parms_so_far', 'params matches Some(p) ==> exists|k: int| 0 <= k < it.index@ && p == parm_prim(#[trigger] %s[k])' % FS),
                 ('any_parms_so_far', '(params is Some) == any_parms(%s, it.index@ as int)' % FS)]
+# the first `for` over the filters is the /DecodeParms loop (its ordinal among ALL loop keywords of the body is 1 in every shape
+# seen so far: it precedes the lazy /Filter chain, which has no loop keyword)
+PARM_LOOPS = {1: {'for_ghost': 'it', 'invariant': PARM_INV}} if SHAPE['loops'] >= 1 else {}
 
 OK = 'r matches Ok(out) ==> '
 BASE = 'base_of(self.info.info.writes()) matches Some(base) && '
@@ -63,6 +83,24 @@ UNIT = {
                      '`data.len() as _` then wraps instead of failing. Not constrained by C10 (documents of that size are outside '
                      'every quantifier); recorded in NOTES.md as an observation.',
  },
+ # BOUNDED native stand-in (vlib/native.py): the real crate, public API, exhaustively enumerated small universe. Decides rewrites of
+ # the /DecodeParms loop (and of the reader's decode chain, Stream::data) that the Verus reading leaves UNDECIDED. Never counted as proved.
+ 'native': {'tests': [
+    {'name': 'filter_lists_up_to_3_written_and_read_back', 'code': 'native_stream_roundtrip_bounded.rs',
+     'place': 'pdf/tests/verif_tostream_bounded.rs', 'fn': 'Stream::to_pdf_stream', 'props': PROPS, 'tier': 'quick', 'timeout': 900,
+     'bound': 'all 585 filter lists of length <= 3 over {ASCIIHexDecode, ASCII85Decode, RunLengthDecode, FlateDecode{defaults}, '
+              'FlateDecode{Predictor 12, Columns 3}, LZWDecode{defaults}, LZWDecode{EarlyChange 0}, DCTDecode{ColorTransform 0}} x '
+              '{Stream::from_compressed, Stream::new_with_filters} x {to_pdf_stream, to_primitive} with NoUpdate, re-read with '
+              'Stream::from_primitive; and each list once through a real Updater (Storage::create, save, FileOptions::load). The 400 lists '
+              'without DCTDecode carry a genuine encoding of one of 60 fixed plaintexts (9..68 bytes; hex/85/Flate/LZW encoders of pdf::enc, '
+              'RunLength literal-run encoder and PNG row predictor tags 0-4 of the harness); lists with DCTDecode carry 7 arbitrary bytes '
+              '(no data check)',
+     'contract': '/Length == number of stream bytes; /Filter denotes the Table 6 names of the filters in order; /DecodeParms entry i carries the '
+                 'parameter values of filter i (null/missing = defaults; null or empty dictionary for a filter without parameters); raw bytes '
+                 'unchanged; the value read back has the same filters and parameters position by position; for the 400 codec lists '
+                 'Stream::data == the plaintext for the in-memory stream, the re-read stream and the saved-and-reloaded stream; the reloaded '
+                 'stream (data still in the file) written again satisfies the same'},
+ ]},
  'items': {
   'struct PlainRef': {'kind': 'decl', 'file': O, 'header': r'^pub struct PlainRef$', 'attrs': ['#[derive(Clone, Copy)]']},
   'enum Primitive': {'kind': 'decl', 'file': PRIM, 'header': r'^pub enum Primitive$'},
@@ -97,7 +135,7 @@ UNIT = {
         ('data_kept', OK + 'self.carries(out.inner)'),
         ('errors_only_from_writers', 'r is Err ==> write_may_fail(*self)'),
      ],
-     'loops': {1: {'for_ghost': 'it', 'invariant': PARM_INV}},
+     'loops': PARM_LOOPS,
      'rewrites': [
         {'rule': 'R1', 'regex': r'\A\s*\{', 'replace': '{ proof { lemma_keys(); }'},
         # R7: head of the lazy adaptor chain; `.map(..)` (and a `.rev()`, should one appear) are the env model's methods
@@ -118,8 +156,16 @@ UNIT = {
         # R1 hints (lemmas without `requires` over the spec-side terms)
         {'rule': 'R1', 'regex': r'\n(\s*)let mut filters =',
          'replace': r'\n\1proof { lemma_no_parms(%s, %s.len() as int); }\n\1let mut filters =' % (FS, FS)},
-        {'rule': 'R1', 'regex': r'(for f in self\.info\.filters\.iter\(\) \{)',
+        {'rule': 'R1', 'regex': '(' + FOR_HEAD + ')', 'count': '*',
          'replace': r'\1 proof { lemma_any_parms_step(%s, it.index@ as int + 1); }' % FS},
+        # GUARD (count 0): iterator consumers this unit has no model for. vstd lets `.iter().any(|p| ..)` & co. through with an
+        # UNCONSTRAINED result, so a correct `if params.iter().any(|p| !matches!(p, Primitive::Null))` would be reported as a failed
+        # postcondition (measured, NOTES.md "benign edits"). Such a body is UNDECIDED here; the native stand-in decides it.
+        {'rule': 'R7', 'count': 0, 'replace': '',
+         'regex': r'\.(?:any|all|find|find_map|position|rposition|fold|try_fold|filter|filter_map|flat_map|count|last|nth|zip|enumerate|skip|take|'
+                  r'chain|sum|max|min|for_each|collect)\s*(?:::<[^()]*>)?\s*\('},
+        # R7: `v.extend(<Option>)` (IntoIterator for Option: appends the value, if any)
+        {'rule': 'R7', 'regex': r'\b(\w+)\.extend\(', 'replace': r'hoist_vec_extend_opt(&mut \1, ', 'count': '*'},
      ]},
 
   'Stream::to_primitive': {'kind': 'fn', 'file': STM, 'container': r'^impl<I: ObjectWrite> ObjectWrite for Stream<I>$', 'name': 'to_primitive',
